@@ -7,7 +7,8 @@
    sentences through the RESULTS (what was generated is what the draws dictate).                          *)
 EXTENDS GenOps, BigNat, Json, IOUtils
 TraceLog == ndJsonDeserialize(IOEnv.TRACE_FILE)
-VARIABLE l
+VARIABLES l, run, prev, ids
+vars == <<l, run, prev, ids>>
 RViol == 1 RLines == 2 RTraces == 3 REvents == 10 RPipes == 11 RQuery == 12 RLater == 13 RZeroProb == 14 RSubTick == 15 RNegDraw == 16 RUndecided == 17
 Regs == {1, 2, 3} \cup 10..17
 RPairs == 18
@@ -58,36 +59,46 @@ CheckEvent(e, ev) ==
        /\ LET gd == ev.calls[ncalls] IN
             Flag(e, "C15.GapDraw", gd.m = "normal" /\ gd.a[1] = e.mean_ticks * 1000000 /\ gd.a[2] = e.mean_ticks * 250000, <<"tick", ev.t, gd, e.mean_ticks>>)
 
-Check(e) ==
-  LET n == Len(e.events) IN
-  /\ Bump(RTraces, 1) /\ Bump(RSubTick, IF e.mean_ticks = 0 THEN 1 ELSE 0)
-  /\ Bump(RZeroProb, Cardinality({j \in 1..3 : e.probs[j] = 0}))
-  /\ Flag(e, "C15.FirstEventAtZero", e.nticks >= 1 => (n >= 1 /\ e.events[1].t = 0), <<n, e.nticks>>)
-  \* events exactly wait+1 ticks apart, wait = the previous event's gap draw if positive, else the mean; at least one tick apart
-  /\ \A j \in 1..(n - 1) : LET ev == e.events[j] gd == ev.calls[Len(ev.calls)] gap == e.events[j + 1].t - ev.t IN
-       /\ Flag(e, "C15.AtLeastOneTickApart", gap >= 1, <<ev.t, e.events[j + 1].t>>)
-       /\ Flag(e, "C15.EventSpacing", gd.m = "normal" => gap = WaitOf(gd.r[1], e.mean_ticks) + 1, <<"event at", ev.t, "next at", e.events[j + 1].t, "draw", gd.r, "mean", e.mean_ticks>>)
+\* streaming: "hdr" (parameters of the run), "ev" (one arrival event), "end"
+NoPrev == [t |-> -1, draw |-> 0, has |-> FALSE]
+CheckHdr(e) == /\ Bump(RTraces, 1) /\ Bump(RSubTick, IF e.mean_ticks = 0 THEN 1 ELSE 0)
+               /\ Bump(RZeroProb, Cardinality({j \in 1..3 : e.probs[j] = 0}))
+               /\ run' = e /\ prev' = NoPrev /\ ids' = {}
+CheckEv(ev) ==
+  LET e == run gd == ev.calls[Len(ev.calls)] IN
+  /\ (IF ~prev.has THEN Flag(e, "C15.FirstEventAtZero", ev.t = 0, ev.t)
+      ELSE /\ Flag(e, "C15.AtLeastOneTickApart", ev.t - prev.t >= 1, <<prev.t, ev.t>>)
+           \* events exactly wait+1 ticks apart, wait = the previous event's gap draw if positive, else the mean
+           /\ Flag(e, "C15.EventSpacing", prev.decided => ev.t - prev.t = WaitOf(prev.draw, e.mean_ticks) + 1,
+                   <<"event at", prev.t, "next at", ev.t, "draw", prev.draw, "mean", e.mean_ticks>>))
+  /\ CheckEvent(e, ev)
+  /\ Flag(e, "C15.FreshIds", \A k \in 1..Len(ev.pipes) : ev.pipes[k].id \notin ids /\ \A k2 \in 1..Len(ev.pipes) : k # k2 => ev.pipes[k].id # ev.pipes[k2].id, <<"tick", ev.t>>)
+  /\ ids' = ids \cup {ev.pipes[k].id : k \in 1..Len(ev.pipes)}
+  /\ prev' = [t |-> ev.t, draw |-> IF ev.calls # <<>> /\ gd.m = "normal" THEN gd.r[1] ELSE 0, has |-> TRUE, decided |-> ev.calls # <<>> /\ gd.m = "normal"]
+  /\ UNCHANGED run
+CheckEnd(e) ==
+  /\ Flag(run, "C15.FirstEventAtZero", e.nticks >= 1 => prev.has, "no event at all")
   \* no event is missing at the end of the run either
-  /\ (n >= 1 => LET ev == e.events[n] gd == ev.calls[Len(ev.calls)] IN
-        Flag(e, "C15.NoMissingEvent", gd.m = "normal" => ev.t + WaitOf(gd.r[1], e.mean_ticks) + 1 >= e.nticks, <<ev.t, gd.r, e.nticks>>))
-  /\ \A j \in 1..n : CheckEvent(e, e.events[j])
-  \* fresh ids over the whole run
-  /\ Flag(e, "C15.FreshIds", Cardinality(UNION {{e.events[j].pipes[k].id : k \in 1..Len(e.events[j].pipes)} : j \in 1..n}) = SumSeq([j \in 1..n |-> Len(e.events[j].pipes)]), "ids")
+  /\ Flag(run, "C15.NoMissingEvent", (prev.has /\ prev.decided) => prev.t + WaitOf(prev.draw, run.mean_ticks) + 1 >= e.nticks, <<prev, e.nticks>>)
   \* calls happen only inside events
-  /\ Flag(e, "C15.NoDrawOutsideEvents", e.stray_calls = 0, e.stray_calls)
+  /\ Flag(run, "C15.NoDrawOutsideEvents", e.stray_calls = 0, e.stray_calls)
+  /\ UNCHANGED <<run, prev, ids>>
 
 \* "raising cpu_io_ratio shifts the prototype mix of the later operators towards CPU-heavy ones": the same parameters and seed
 \* run with ratio 0 and with ratio 1; over at least 100 later operators each, the mean CPU time must grow and the mean read size shrink
 \* (each draw moves by two prototype classes, so the effect is far beyond chance; implementation-independent)
 CheckPair(e) ==
-  /\ Bump(RTraces, 1)
+  /\ Bump(RTraces, 1) /\ UNCHANGED <<run, prev, ids>>
   /\ (e.lo.n >= 100 /\ e.hi.n >= 100) =>
        /\ Bump(RPairs, 1)
        /\ Flag(e, "C15.RatioShiftsMix.cpu", ProdCmp(<<e.hi.cpu, e.lo.n>>, <<e.lo.cpu, e.hi.n>>) = 1, <<"ratio 0", e.lo, "ratio 1", e.hi>>)
        /\ Flag(e, "C15.RatioShiftsMix.read", ProdCmp(<<e.hi.read, e.lo.n>>, <<e.lo.read, e.hi.n>>) = -1, <<"ratio 0", e.lo, "ratio 1", e.hi>>)
-Init == l = 1 /\ \A r \in Regs \cup {RPairs} : TLCSet(r, 0)
-Next == l <= Len(TraceLog) /\ (IF TraceLog[l].kind = "pair" THEN CheckPair(TraceLog[l]) ELSE Check(TraceLog[l])) /\ TLCSet(RLines, l) /\ l' = l + 1
-Spec == Init /\ [][Next]_l
+Init == l = 1 /\ run = [tid |-> -1] /\ prev = NoPrev /\ ids = {} /\ \A r \in Regs \cup {RPairs} : TLCSet(r, 0)
+Next == /\ l <= Len(TraceLog)
+        /\ LET e == TraceLog[l] IN
+           CASE e.kind = "pair" -> CheckPair(e) [] e.kind = "hdr" -> CheckHdr(e) [] e.kind = "ev" -> CheckEv(e) [] e.kind = "end" -> CheckEnd(e)
+        /\ TLCSet(RLines, l) /\ l' = l + 1
+Spec == Init /\ [][Next]_vars
 Consumed == /\ PrintT(<<"COUNT", "runs", TLCGet(RTraces), "events", TLCGet(REvents), "pipelines", TLCGet(RPipes), "query_pipelines", TLCGet(RQuery), "later_operators", TLCGet(RLater),
                         "zero_prob_classes", TLCGet(RZeroProb), "runs_subtick_mean", TLCGet(RSubTick), "opcount_draws_below_one", TLCGet(RNegDraw), "events_undecidable_call_pattern", TLCGet(RUndecided), "ratio_pairs", TLCGet(RPairs)>>)
             /\ PrintT(<<"SUMMARY", "viol", TLCGet(RViol), "lines", TLCGet(RLines), "traces", TLCGet(RTraces)>>)
